@@ -265,8 +265,9 @@ func (mr *memRepo) IndexInsert(desc types.Descriptor, opts ...types.IndexOpt) er
 	mr.mu.Lock()
 	mr.timeMod = time.Now()
 	mr.index.AddDesc(desc, opts...)
-	mr.mu.Unlock()
+	// the index shares the annotations of the descriptor, it is logged before the lock is released
 	mr.log.Debug("index entry added", "repo", mr.path, "desc", desc)
+	mr.mu.Unlock()
 	return nil
 }
 
@@ -278,8 +279,8 @@ func (mr *memRepo) IndexRemove(desc types.Descriptor) error {
 	mr.mu.Lock()
 	mr.timeMod = time.Now()
 	mr.index.RmDesc(desc)
-	mr.mu.Unlock()
 	mr.log.Debug("index entry removed", "repo", mr.path, "desc", desc)
+	mr.mu.Unlock()
 	return nil
 }
 
